@@ -114,8 +114,11 @@ func checkC04(c *Ctx, r *Report) {
 	c04c(c, r)
 	c04d(c, r)
 	c04e(c, r)
+	c04Flows(c, r)
 	// a %prec belongs to one alternative: at `|` the next alternative starts from a fresh record (C10.d)
 	includeSome(r, "C04.c", func(sub *Report) { c10d(c, sub) }, "alternative-starts-fresh")
+	// every cell with two or more candidates is resolved at all (C02.a)
+	includeSome(r, "C04.e", func(sub *Report) { c02a(c, sub) }, "fold-covers-every-conflict")
 }
 
 // c04e — a cell with three or more candidate actions: the property's pairwise rules are applied as a LEFT FOLD,
